@@ -86,14 +86,48 @@ ReportThm ==
               out = NegateCat(Filter(cat, opt.nonegative, opt.nopositive))
 
 \* the tolerance operators of the symmetry relation are well behaved at the
-\* extremes of the 32-bit range (TLC aborts on overflow)
+\* extremes of the 32-bit range (TLC aborts on overflow), and the verdict
+\* level never rejects what the strict level accepts
+Extremes == {-IntMax, -1000000, -1, 0, 1, 1000000, IntMax}
+SampleRow(pk, e, fl) ==
+    [isl |-> 1, src |-> 0, flags |-> fl, peak |-> pk, int_ |-> pk, x |-> Abs(pk), y |-> Abs(pk) \div 2,
+     a |-> Abs(pk), b |-> Abs(pk), pa |-> Abs(pk) % 90000001,
+     e_peak |-> e, e_int |-> e, e_a |-> e, e_b |-> e, e_pa |-> e, e_ra |-> e, e_dec |-> e]
+SampleRows == {SampleRow(pk, e, fl) : pk \in Extremes \ {0}, e \in Extremes, fl \in {0, 1, 4}}
+
 ASSUME FixedPointLemmas ==
-    /\ \A x \in {-IntMax, -1000000, -1, 0, 1, 1000000, IntMax} :
+    /\ \A x \in Extremes :
          /\ SameRel(x, x) /\ SameRel(-x, -x)
-         /\ \A y \in {-IntMax, -1, 0, 1, IntMax} : SameRel(x, y) = SameRel(y, x)
+         /\ \A ed \in {4, 20} : SameErr(x, x, ed)
+         /\ \A y \in Extremes :
+              /\ SameRel(x, y) = SameRel(y, x)
+              /\ \A ed \in {4, 20} : SameErr(x, y, ed) = SameErr(y, x, ed)
+              /\ \A e1, e2 \in Extremes : \A k \in BOOLEAN :
+                   /\ SameRel(x, y) => SameVal(x, y, e1, e2, 100, k)
+                   /\ SameVal(x, y, e1, e2, 100, k) = SameVal(y, x, e2, e1, 100, k)
+                   /\ SameVal(x, y, e1, e2, 1, k) = SameVal(y, x, e2, e1, 1, k)
+                   /\ SameVal(x, y, e1, e2, 100, FALSE) => SameVal(x, y, e1, e2, 100, TRUE)
+                   /\ SameVal(x, y, e1, e2, 1, FALSE) => SameVal(x, y, e1, e2, 1, TRUE)
     /\ SameRel(1000000000, 1000001000) /\ ~SameRel(1000000000, 1000001100)
     /\ SameRel(-1000000000, -1000001000) /\ ~SameRel(-1000000000, 1000000000)
     /\ ~SameRel(100, 103) /\ SameRel(100, 102)
     /\ SamePA(90000000, -89999900) /\ SamePA(-89999900, 90000000)
     /\ ~SamePA(90000000, -89999000) /\ SamePA(1000, 1100) /\ ~SamePA(1000, 1400)
+    \* verdict level: a quarter of the quoted error, errors within 5 %
+    /\ SameVal(30000000, 30000200, 100000000, 100000000, 100, FALSE)   \* 0.0002 vs 1.0/4
+    /\ ~SameVal(30000000, 30300000, 100000000, 100000000, 100, FALSE)  \* 0.3 > 0.25
+    /\ SameVal(30000000, 32900000, 100000000, 100000000, 100, TRUE)    \* blended: 2.9 < 3
+    /\ ~SameVal(30000000, 33100000, 100000000, 100000000, 100, TRUE)   \* blended: 3.1 > 3
+    /\ ~SameVal(30000000, 30000200, -100000000, -100000000, 100, FALSE) \* no error quoted
+    /\ ~SameVal(30000000, 30000200, -100000000, -100000000, 100, TRUE)
+    /\ SameErr(100000000, 104000000, 20) /\ ~SameErr(100000000, 106000000, 20)
+    /\ SameErr(100000000, 106000000, 4)
+    /\ \A a \in SampleRows : \A b \in SampleRows : \A bl \in BOOLEAN :
+         /\ NegRowStrict(a, b) => NegRow(a, b, bl)
+         /\ NegRow(a, b, FALSE) => NegRow(a, b, TRUE)
+         /\ NegRow(a, b, bl) => (SameIds(a, b) /\ SameFlags(a, b) /\ SignNegated(a, b))
+    /\ \E a \in SampleRows : \E b \in SampleRows : NegRowStrict(a, b)
+    /\ LET A == <<SampleRow(5, 1, 0), [SampleRow(7, 1, 0) EXCEPT !.src = 1],
+                  [SampleRow(7, 1, 0) EXCEPT !.src = -1], [SampleRow(9, 1, 0) EXCEPT !.isl = 2]>>
+       IN Blended(A, 1) /\ Blended(A, 2) /\ ~Blended(A, 3) /\ ~Blended(A, 4)
 =============================================================================
